@@ -774,6 +774,88 @@ fn g_place(out: &mut Out, rng: &mut Rng, count: usize) -> io::Result<()> {
     Ok(())
 }
 
+/// G5: messages whose every prefix is parsed (C02); also config pairs (C15) and the
+/// parse_headers relation (C16)
+fn g_split(out: &mut Out, rng: &mut Rng, count: usize) -> io::Result<()> {
+    for (t, cfgs) in REQ_TEMPLATES {
+        let k = t.iter().filter(|&&b| b == b'\n').count();
+        for &cfg in *cfgs {
+            writeln!(out, "split req {} {} {}", cfg, k + 1, hex(t))?;
+            writeln!(out, "split req {} {} {}", cfg, 1, hex(t))?;
+        }
+    }
+    for (t, cfgs) in RESP_TEMPLATES {
+        let k = t.iter().filter(|&&b| b == b'\n').count();
+        for &cfg in *cfgs {
+            writeln!(out, "split resp {} {} {}", cfg, k + 1, hex(t))?;
+            writeln!(out, "split resp {} {} {}", cfg, 1, hex(t))?;
+        }
+    }
+    for t in HDRS_TEMPLATES { writeln!(out, "split hdrs 4 {}", hex(t))?; }
+    for t in CHUNK_TEMPLATES { writeln!(out, "split chunk {}", hex(t))?; }
+    for _ in 0..count {
+        match rng.below(8) {
+            0 | 1 | 2 => { let (t, c) = rng.pick(REQ_TEMPLATES); let mut s = t.to_vec(); mutate(rng, &mut s); writeln!(out, "split req {} {} {}", rng.pick(c), rng.below(5), hex(&s))?; }
+            3 | 4 | 5 => { let (t, c) = rng.pick(RESP_TEMPLATES); let mut s = t.to_vec(); mutate(rng, &mut s); writeln!(out, "split resp {} {} {}", rng.pick(c), rng.below(5), hex(&s))?; }
+            6 => { let t = rng.pick(HDRS_TEMPLATES); let mut s = t.to_vec(); mutate(rng, &mut s); writeln!(out, "split hdrs {} {}", rng.below(5), hex(&s))?; }
+            _ => { let t = rng.pick(CHUNK_TEMPLATES); let mut s = t.to_vec(); mutate(rng, &mut s); writeln!(out, "split chunk {}", hex(&s))?; }
+        }
+    }
+    Ok(())
+}
+
+fn g_cfgpair(out: &mut Out, rng: &mut Rng, count: usize, thorough: bool) -> io::Result<()> {
+    // every template under all 128 configurations against the default
+    for (t, _) in REQ_TEMPLATES {
+        for c in 0..128 { writeln!(out, "cfgpair req 0 {} 8 {}", c, hex(t))?; }
+    }
+    for (t, _) in RESP_TEMPLATES {
+        for c in 0..128 { writeln!(out, "cfgpair resp 0 {} 8 {}", c, hex(t))?; }
+    }
+    // single-byte variants of templates, a few configs each, incl. pairs differing in other-kind options
+    for (kind, list) in [("req", REQ_TEMPLATES), ("resp", RESP_TEMPLATES)] {
+        for (t, cfgs) in list {
+            for p in 0..t.len() {
+                let vals: Vec<u8> = if thorough { SPECIAL.to_vec() } else { vec![b' ', b'\t', b'\r', b'\n', 0, b':'] };
+                for &b in &vals {
+                    let mut s = t.to_vec();
+                    s[p] = b;
+                    let c = *rng.pick(cfgs);
+                    writeln!(out, "cfgpair {} 0 {} 8 {}", kind, rng.below(128), hex(&s))?;
+                    let other: u32 = if kind == "req" { c ^ [1u32, 2, 8, 32, 43][rng.below(5)] } else { c ^ [4u32, 64, 68][rng.below(3)] };
+                    writeln!(out, "cfgpair {} {} {} 8 {}", kind, c, other, hex(&s))?;
+                }
+            }
+        }
+    }
+    for _ in 0..count {
+        let isreq = rng.chance(1, 2);
+        let (t, cfgs) = if isreq { rng.pick(REQ_TEMPLATES) } else { rng.pick(RESP_TEMPLATES) };
+        let mut s = t.to_vec();
+        if rng.chance(2, 3) { mutate(rng, &mut s); }
+        let a = if rng.chance(1, 2) { 0 } else { *rng.pick(cfgs) };
+        let b = if a == 0 || rng.chance(1, 2) { rng.below(128) as u32 } else if isreq { a ^ (rng.below(128) as u32 & 43) } else { a ^ (rng.below(128) as u32 & 68) };
+        writeln!(out, "cfgpair {} {} {} {} {}", if isreq { "req" } else { "resp" }, a, b, rng.below(6), hex(&s))?;
+    }
+    Ok(())
+}
+
+fn g_hrel(out: &mut Out, rng: &mut Rng, count: usize) -> io::Result<()> {
+    let tc = tchars();
+    for t in HDRS_TEMPLATES {
+        let k = t.iter().filter(|&&b| b == b'\n').count();
+        for cap in 0..=k + 1 {
+            for cut in 0..=t.len() { writeln!(out, "hrel {} {}", cap, hex(&t[..cut]))?; }
+        }
+    }
+    for _ in 0..count {
+        let mut s = rand_headers(rng, &tc, false, false, false, false);
+        if rng.chance(2, 3) { mutate(rng, &mut s); }
+        writeln!(out, "hrel {} {}", rng.below(7), hex(&s))?;
+    }
+    Ok(())
+}
+
 pub fn cmd_gen(args: &[String]) -> io::Result<()> {
     let family = args.get(0).map(|s| s.as_str()).unwrap_or("core");
     let thorough = args.get(1).map(|s| s.as_str()) == Some("thorough");
@@ -801,6 +883,9 @@ pub fn cmd_gen(args: &[String]) -> io::Result<()> {
         "hist" => g_hist(&mut out, &mut rng, if thorough { 400_000 } else { 30_000 })?,
         "place" => g_place(&mut out, &mut rng, if thorough { 300_000 } else { 20_000 })?,
         "classes" => writeln!(out, "classes")?,
+        "split" => g_split(&mut out, &mut rng, if thorough { 300_000 } else { 12_000 })?,
+        "cfgpair" => g_cfgpair(&mut out, &mut rng, if thorough { 1_000_000 } else { 60_000 }, thorough)?,
+        "hrel" => g_hrel(&mut out, &mut rng, if thorough { 1_000_000 } else { 60_000 })?,
         _ => {
             eprintln!("unknown family {}", family);
             std::process::exit(2);
